@@ -256,7 +256,7 @@ def t_mklist(ex):
 
 def t_mkdict(ex):
     n = ex.fresh("u32", "n")
-    ex.assume(z3.ULE(n.bv, 3))
+    ex.assume(z3.ULE(n.bv, 2))
     xs = [sym_value(ex, f"x{i}", NOT_IDENT) for i in range(4)]
     return [bc(ex, "Push", x) for x in xs] + [bc(ex, "MkDict", n)]
 
@@ -521,6 +521,7 @@ class RefVM:
                     raise Halt("Value")
                 val = self.pop_val()
                 pairs.append((vid_of(ex, self.payload(key, "String")), val))
+            pairs.reverse()  # source order: the entry pushed last is popped first
             self.push(("map", pairs))
         elif op == "FmtString":
             k = self.count(self.payload(ins, "FmtString"))
@@ -701,12 +702,23 @@ def matches(ex, actual, want):
             return z3.BoolVal(False)
         return z3.And([matches(ex, a, w) for a, w in zip(f[0].items, want[1])] + [z3.BoolVal(True)])
     if k == "map":
+        # a map literal holds, for every key, the value of the LAST entry (in source order) with
+        # that key; HashMap::insert keeps the value inserted last.  Keys are texts with an
+        # uninterpreted equality.
         if name != "Map" or not isinstance(f[0], engine.VMap):
             return z3.BoolVal(False)
-        got = [(vid_of(ex, kk), vv) for kk, vv in f[0].entries]
-        if [g[0] for g in got] != [w[0] for w in want[1]]:
+        G = [(vid_of(ex, kk), vv) for kk, vv in f[0].entries]
+        W = want[1]
+        if sorted(g[0] for g in G) != sorted(w[0] for w in W):
             return z3.BoolVal(False)
-        return z3.And([matches(ex, g[1], w[1]) for g, w in zip(got, want[1])] + [z3.BoolVal(True)])
+        conds = []
+        for K in sorted({w[0] for w in W}):
+            for j, (kj, vj) in enumerate(W):
+                sel_w = z3.And([key_eq(ex, kj, K)] + [z3.Not(key_eq(ex, k2, K)) for k2, _ in W[j + 1:]])
+                for i, (gi, vi) in enumerate(G):
+                    sel_g = z3.And([key_eq(ex, gi, K)] + [z3.Not(key_eq(ex, g2, K)) for g2, _ in G[i + 1:]])
+                    conds.append(z3.Implies(z3.And(sel_w, sel_g), matches(ex, vi, vj)))
+        return z3.And(conds + [z3.BoolVal(True)])
     if k == "concat":
         if name != "String":
             return z3.BoolVal(False)
@@ -787,7 +799,12 @@ def vm_scenario(ex):
                 b = ex.adt_fields(v, ex.variant_index(v, "Bool"))[0]
                 return {"Bool": z3.is_true(mv(b.b))}
             if k == "String":
-                return {"Str": f"s{c}"}
+                sv = vid_of(ex, ex.adt_fields(v, ex.variant_index(v, "String"))[0])
+                rep = sv
+                for key, b in ex.lazy.items():
+                    if isinstance(key, tuple) and key[0] == "keq" and sv in key[1:] and z3.is_true(mv(b)):
+                        rep = min(rep, key[1], key[2])
+                return {"Str": f"s{rep}"}
             if k == "Bytes":
                 return {"Bytes": [c % 250]}
             if k == "List":
@@ -834,6 +851,16 @@ def vm_scenario(ex):
         req["resolve"] = z3.is_true(mv(ex.notes["resolve"]))
         return {"kind": "vm", "request": req, "depth_on_entry": mv(ex.notes["depth0"].bv).as_long()}
     return build
+
+
+def key_eq(ex, a, b):
+    """uninterpreted equality of two key texts (identified by their vids)"""
+    if a == b:
+        return z3.BoolVal(True)
+    key = ("keq", min(a, b), max(a, b))
+    if key not in ex.lazy:
+        ex.lazy[key] = z3.Bool(f"keq@{key[1]}@{key[2]}")
+    return ex.lazy[key]
 
 
 def final_stack(ex):
@@ -943,7 +970,7 @@ add("vm_resolve", "C12,C01", t_resolve, "identifier operands resolve: type name,
 add("vm_jmpcond", "C05,C10,C01", t_jmpcond, "JmpCond pops; jumps iff Bool == when, a failing condition counts as 'false'; other kinds fail; targets bounded", allow_bound=10000)
 add("vm_jmp", "C10,C01", t_jmp, "Jmp: target inside the block or at its end, otherwise an error", allow_bound=10000)
 add("vm_mklist", "C06,C01", t_mklist, "MkList(n) builds the list of the last n pushed values in push order")
-add("vm_mkdict", "C06,C01", t_mkdict, "MkDict(n): n (key, value) pairs, keys must be strings; insertion order = pop order")
+add("vm_mkdict", "C06,C01", t_mkdict, "MkDict(n), n <= 2: (key, value) pairs, keys must be strings; for a repeated key the entry that comes last in the source wins")
 add("vm_fmt", "C14,C01", t_fmt, "FmtString(n) concatenates its n string segments in push order; a non-string segment fails")
 add("vm_access", "C06,C12,C01", t_access, "m.k: the value stored under k wins over a method named k; absent field is an absent-field failure value; a.b on other kinds binds a method or fails")
 add("vm_call", "C12,C01", t_call, "Call on an identifier: bound function, then macro, then type constructor, else 'not callable'; arguments in source order")
